@@ -25,15 +25,19 @@ META = dict(
                "(the scripted broker takes a message only at its yield). Trusted: Coq kernel + vm_compute, shims and raw-log grouping, "
                "virtual-time loop.",
     rule="case = receiver scenario (A, P, N, wait_tasks_timeout, stop instant, stream end, messages valid / malformed / unknown with "
-         "arrival, duration, outcome); non-trivial iff >= 2 valid messages and (a stop instant, or N, or a malformed / unknown message, "
+         "arrival, duration, outcome; for ~30 % of the scenarios the wire form of the valid messages is varied the way real producers "
+         "write them: sent through the real AsyncKicker with a pre_send middleware stamping labels after typing, labels_types covering "
+         "all / some / none of the labels, null, {}, absent, entries for absent labels, the label types of prepare_label, odd / duplicate "
+         "task ids, keyword / nested JSON arguments, extra top-level fields, ProxyFormatter+JSON / JSONFormatter / ProxyFormatter+pickle); "
+         "non-trivial iff >= 2 valid messages and (a stop instant, or N, or a malformed / unknown message, "
          "or a backlog > A+P+1); distinct by canonical scenario",
     trusted_base=["model: coq/theories/RecvLTS.v; defective variant coq/findings/FindingsRecv.v",
                   "logging shims + raw log -> LTS event grouping: harness/shims.py; harness/vloop.py"],
     assumptions=["the broker's listen() generator takes a message only at its yield and raises nothing but StopAsyncIteration",
                  "pre_execute hooks that raise are the pipeline's concern (C10): such a message is exempt from 'must enter the body'"],
 )
-PROF = dict(stop_p=.4, n_p=.35, ends_p=.2, wtt_p=.25, never=.03)
-PROF_BACKLOG = dict(backlog=True, stop_p=.3, n_p=.5, ends_p=.1, wtt_p=.2)
+PROF = dict(stop_p=.4, n_p=.35, ends_p=.2, wtt_p=.25, never=.03, wire_p=.3)
+PROF_BACKLOG = dict(backlog=True, stop_p=.3, n_p=.5, ends_p=.1, wtt_p=.2, wire_p=.3)
 
 
 def oracle(sc, obs):
@@ -63,6 +67,10 @@ def oracle(sc, obs):
     must = [i for i in taken if f.must_run(i)]
     missing = [i for i in must if not f.bodyin.get(i)]
     if f.returned:
+        if sc.get("wtt_us") is not None:
+            # wait_tasks_timeout: listen() may return while callbacks are still running; such a message (here: still inside a
+            # slow pre_execute hook at the return) was abandoned by configuration, like one abandoned inside its body - not dropped
+            missing = [i for i in missing if not (f.cbstart.get(i) and not any(t <= f.ret_t for t in f.cbend.get(i, [])))]
         if missing:
             out.append(dict(what="listen() returned although a valid message taken from the broker never entered its task function",
                             observed=dict(taken=taken, never_run=missing), expected="exactly one body entry per valid taken message",
@@ -111,9 +119,13 @@ def explore(ctx, rep, scs, label):
 def run(ctx):
     rep = C.Report(ctx, META)
     rep.add_obligations(C.proof_obligations("C01"))
-    corp = [c for _, c in C.load_corpus("C01")]
-    bad = explore(ctx, rep, corp, "corpus")
+    corp = C.load_corpus("C01")
+    bad = explore(ctx, rep, [c for n, c in corp if n.startswith("d1_")], "corpus")
     rep.extra["corpus_d1_lookahead_after_budget"] = "passes (repaired)" if not bad else "FAILS: D1 is back"
+    rest = [c for n, c in corp if not n.startswith("d1_")]
+    if rest:
+        bad = explore(ctx, rep, rest, "corpus:wire-forms")
+        rep.extra["corpus_valid_messages_wire_forms"] = "every valid message ran exactly once" if not bad else "FAILS"
     r = ctx.sub_rng("gen")
     scs = [R.gen_scenario(r, PROF if i % 3 else PROF_BACKLOG) for i in range(ctx.n(450, 30000))]
     broken = explore(ctx, rep, scs, "main")
